@@ -4,10 +4,12 @@ from __future__ import annotations
 import datetime as dt
 import json
 import os
+import random
 import tempfile
 
 from harness import common as C
-from harness import gen, model, ref
+from harness import gen, model, nestfirst, ref
+from harness.model import T
 
 OPTS = dict(meta_keys=['key_transform_with_dump', 'marshal_date_time_as_iso', 'skip_defaults_off'],
             leaves=gen.LEAVES_DEFAULT)
@@ -23,6 +25,119 @@ def make_case(rng):
         if ty['info']['wizard'] != 'file':
             ty['info']['meta'] = None
     return ty
+
+
+# --------------------------------------------------------------------------- family: tag configuration × binding style × histories
+# the names most often used for a tag key are also ordinary field names of untagged classes
+TAG_KEYS = ['type', 'kind', 'tag', '__tag__', 'my tag']
+TAG_LIKE_FIELDS = ['type', 'kind', 'tag']
+POSITIONS = [lambda u: u, lambda u: T('list', u), lambda u: T('dict', T('str'), u), lambda u: T('tuple', T('str'), u),
+             lambda u: T('optional', u) if u['k'] != 'union' else _union(u['a'] + [T('none')])]
+
+
+def _union(members):
+    """Union[X, None] *is* Optional[X] (no tag dispatch); None at most once"""
+    some = [m for m in members if m['k'] != 'none']
+    if len(some) == 1:
+        return T('optional', some[0])
+    if len(some) < len(members):
+        i = next(i for i, m in enumerate(members) if m['k'] == 'none')
+        members = [m for j, m in enumerate(members) if m['k'] != 'none' or j == i]
+    return T('union', *members)
+
+
+def _add_field(rng, ty, ft, name=None):
+    used = {f['name'] for f in ty['info']['fields']}
+    name = name or gen.field_name(rng, used)
+    idx = next((i for i, f in enumerate(ty['info']['fields']) if f.get('dflt') is not None), len(ty['info']['fields']))
+    ty['info']['fields'].insert(idx, {'name': name})
+    ty['ftys'].append([name, ft])
+
+
+def _plain_class(rng, o):
+    """a nested class without any Meta; some of its fields are named like a tag key"""
+    c = gen.gen_cls(rng, rng.choice([0, 0, 1]), o, nested=True)
+    c['info']['meta'] = None
+    if c['info']['wizard'] == 'py':
+        c['info']['wizard'] = True
+    if rng.random() < 0.75:
+        f = rng.choice(c['info']['fields'])
+        new = rng.choice(TAG_LIKE_FIELDS)
+        if new not in {g['name'] for g in c['info']['fields']}:
+            for e in c['ftys']:
+                if e[0] == f['name']:
+                    e[0] = new
+            f['name'] = new
+    return c
+
+
+def make_tagged_case(rng):
+    o = gen.Opts(**OPTS)
+    o.meta_keys = ['key_transform_with_dump']
+    ty = gen.gen_cls(rng, rng.choice([0, 1, 1, 2]), o)
+    auto = rng.random() < 0.4
+    # a Union of dataclasses: explicit tags, automatic ones (class name), or a mixture
+    if rng.random() < 0.8:
+        members = []
+        for _ in range(rng.randint(1, 3)):
+            m = gen.gen_cls(rng, 0, o, nested=True)
+            meta = {k: v for k, v in (m['info'].get('meta') or {}).items()}
+            if not auto or rng.random() < 0.4:
+                meta['tag'] = model.fresh('tg')
+            m['info']['meta'] = meta or None
+            if m['info']['wizard'] == 'py' and m['info']['meta'] is None:
+                m['info']['wizard'] = True
+            members.append(m)
+        members += rng.sample([T('int'), T('str'), T('bool'), T('none'), T('float')], rng.randint(0, 2))
+        rng.shuffle(members)
+        if len(members) == 1:
+            members.append(T('none'))
+        u = _union(members)
+        _add_field(rng, ty, rng.choice(POSITIONS)(u))
+    # plain nested classes (no Meta of their own: everything they are configured with cascades from the main class)
+    for _ in range(rng.choice([0, 1, 1, 2])):
+        c = _plain_class(rng, o)
+        _add_field(rng, ty, rng.choice(POSITIONS[:4] + [lambda c_: T('optional', c_)])(c))
+    # the main class's own configuration, as an inner Meta or bound from outside the class definition
+    ty['info']['wizard'] = rng.choice([True, True, False, False, 'py'])
+    meta = dict(ty['info'].get('meta') or {})
+    if rng.random() < 0.7:
+        meta['tag_key'] = rng.choice(TAG_KEYS)
+    if auto:
+        meta['auto_assign_tags'] = True
+    if rng.random() < 0.5:
+        meta['tag'] = model.fresh('root')
+    ty['info']['meta'] = meta or None
+    # ---- history
+    pre = []
+    if rng.random() < 0.6:
+        cands = standalone_first_candidates(ty)
+        rng.shuffle(cands)
+        pre = [(n_, rng.choice(ops)) for n_, ops in cands[:rng.randint(1, max(1, len(cands)))]]
+    return ty, pre
+
+
+def standalone_first_candidates(ty):
+    """(nested class N, allowed uses) for uses of N on its own that may precede the first use of `ty`.
+
+    Kept out (recorded finding `shared-nested-config-leak`, listed for C06 / C07, architectural: the per-class tables are
+    keyed by class, not by (class, config); see also /tmp/ag/A/findings/standalone-load-fixes-tag-key.md):
+    (a) an N that itself cascades a Meta to classes below it - their per-class binding would survive into the use of `ty`;
+    (b) *loading* an N on its own when a class in its subtree dispatches a Union on a tag and `ty` cascades another tag_key /
+        auto_assign_tags to it - the Union parser cached for the field keeps the tag settings of the first use."""
+    infos = nestfirst.class_nodes(ty)
+    under_root = nestfirst.effective_table(ty)
+
+    def tag_cfg(eff):
+        return (eff.get('tag_key') or '__tag__', bool(eff.get('auto_assign_tags')))
+    out = []
+    for name, node in infos.items():
+        if node is ty or nestfirst.cascades_below(node):
+            continue
+        alone = nestfirst.effective_table(node)
+        loadable = all(tag_cfg(alone[n2]) == tag_cfg(under_root[n2]) or not nestfirst.has_dataclass_union(infos[n2]) for n2 in alone)
+        out.append((name, ['dump', 'roundtrip'] if loadable else ['dump']))
+    return out
 
 
 def load_outcome(fn):
@@ -97,6 +212,10 @@ def run(ctx: C.Ctx):
                 '{unset,CAMEL,PASCAL,LISP,SNAKE,NONE}) with one conforming instance each: fromdict(asdict(x)), from_json(to_json(x)), '
                 'from_list/list_to_json, YAML/TOML/JSON-file mixins when the format carries the payload; the load of the dumped '
                 'document is also compared with the Lean model. Non-trivial = distinct (class model, instance).')
+    ctx.rule += (' Further dimensions (family tagged-config): tag_key / auto_assign_tags / a tag on the main class, given as an inner '
+                 'Meta or bound from outside the class (LoadMeta / DumpMeta style); Unions of dataclasses with explicit, automatic and '
+                 'mixed tags at several container positions; plain nested classes whose field names come from the same pool as the tag '
+                 'keys; histories in which nested classes are dumped / round-tripped on their own before the first use of the main class.')
     n = ctx.quick(1200, 15000)
     reqs, pend = [], []
     for i in range(n):
@@ -110,52 +229,95 @@ def run(ctx: C.Ctx):
             ctx.notes.setdefault('build_errors', []).append(repr(e)[:200])
             continue
         try:
-            neg = (i % 40 == 39)
             x = gen.gen_instance(rng, ty, built)
             if not ctx.begin_case(i):
                 continue
-            case = {'ty': ty, 'inst': repr(x)[:500]}
-            ctx.seen('roundtrip', case)
-            Cls = built.root
-            src = dict(src=built.source)
-            try:
-                d = asdict(x)
-            except Exception as e:
-                ctx.fail('roundtrip:dump', case, f'asdict raised {e!r}', detail=src)
-                continue
-            key = _known_key(x)
-            # -- fromdict(asdict(x))
-            out = load_outcome(lambda: fromdict(Cls, d))
-            check_rt(ctx, 'roundtrip:dict', case, out, x, src, key)
-            # -- through JSON text
-            try:
-                jd = json.loads(json.dumps(d))
-            except Exception:
-                jd = None
-            if jd is not None:
-                out_j = load_outcome(lambda: fromdict(Cls, jd))
-                check_rt(ctx, 'roundtrip:jsonified', case, out_j, x, src, key)
-                st = model.StdTables()
-                st.add_json(jd)
-                reqs.append({'op': 'load', 'ty': model.enc_ty(ty), 'doc': model.enc_j(jd), 'std': st.build()})
-                pend.append((case, out_j, built))
-            if hasattr(Cls, 'from_json'):
-                out = load_outcome(lambda: Cls.from_json(x.to_json()))
-                check_rt(ctx, 'roundtrip:json', case, out, x, src, key)
-                out = load_outcome(lambda: Cls.from_list(json.loads(Cls.list_to_json([x, x]))))
-                if out[0] == 'ok':
-                    ok = len(out[1]) == 2 and all(ref.same_typed(y, x) for y in out[1])
-                    if not ok and key is None:
-                        ctx.fail('roundtrip:list', case, f'from_list(list_to_json([x, x])) = {out[1]!r} != [x, x]', detail=src)
-                elif key is None:
-                    ctx.fail('roundtrip:list', case, f'from_list(list_to_json([x, x])) raised {out[1]!r}', detail=src)
-            text_formats(ctx, case, x, Cls, built, src, key)
+            one_case(ctx, ty, built, x, reqs, pend)
         finally:
             built.close()
+    # ---- directed family; each case has its own RNG (seed, family, j), so a replay regenerates just that case
+    base = n
+    for fam, count in (('tagged-config', ctx.quick(500, 6000)),):
+        for j in range(count):
+            idx = base + j
+            if ctx.done(idx):
+                break
+            if ctx.only is not None and ctx.only != idx:
+                continue
+            crng = random.Random(f'C01:{ctx.seed}:{fam}:{j}')
+            ty, pre = make_tagged_case(crng)
+            try:
+                built = model.Built(ty)
+            except Exception as e:
+                ctx.count('build_error')
+                ctx.notes.setdefault('build_errors', []).append(repr(e)[:200])
+                continue
+            try:
+                pre_insts = [(n_, op, gen.gen_instance(crng, built.infos[n_], built)) for n_, op in pre]
+                x = gen.gen_instance(crng, ty, built)
+                if not ctx.begin_case(idx):
+                    continue
+                one_case(ctx, ty, built, x, reqs, pend, pre=pre_insts, fam=fam)
+            finally:
+                built.close()
+        base += count
     if ctx.model_available:
         outs = ctx.driver.run(reqs)
         for (case, impl_out, built), o in zip(pend, outs):
             compare_load(ctx, 'load-of-dump', case, impl_out, o, built)
+
+
+def one_case(ctx, ty, built, x, reqs, pend, pre=(), fam='roundtrip'):
+    """all round trips of one (class model, history of stand-alone uses of nested classes `pre`, instance)"""
+    from dataclass_wizard import asdict, fromdict
+    case = {'ty': ty, 'inst': repr(x)[:500]}
+    src = dict(src=built.source)
+    # ---- history: nested classes used on their own (as main classes) before the first use of the main class;
+    # each such use is itself an instance of the property
+    if pre:
+        case['standalone_first'] = [[n_, op, repr(y)[:200]] for n_, op, y in pre]
+    for n_, op, y in pre:
+        try:
+            d_y = asdict(y)
+        except Exception as e:
+            ctx.fail('roundtrip:standalone-first', case, f'asdict of the nested class {n_} on its own raised {e!r}', detail=src)
+            continue
+        if op == 'roundtrip':
+            check_rt(ctx, 'roundtrip:standalone-first', case, load_outcome(lambda: fromdict(type(y), d_y)), y, src, _known_key(y))
+    ctx.seen(fam, case)
+    Cls = built.root
+    try:
+        d = asdict(x)
+    except Exception as e:
+        ctx.fail('roundtrip:dump', case, f'asdict raised {e!r}', detail=src)
+        return
+    key = _known_key(x)
+    # -- fromdict(asdict(x))
+    out = load_outcome(lambda: fromdict(Cls, d))
+    check_rt(ctx, 'roundtrip:dict', case, out, x, src, key)
+    # -- through JSON text
+    try:
+        jd = json.loads(json.dumps(d))
+    except Exception:
+        jd = None
+    if jd is not None:
+        out_j = load_outcome(lambda: fromdict(Cls, jd))
+        check_rt(ctx, 'roundtrip:jsonified', case, out_j, x, src, key)
+        st = model.StdTables()
+        st.add_json(jd)
+        reqs.append({'op': 'load', 'ty': model.enc_ty(ty), 'doc': model.enc_j(jd), 'std': st.build()})
+        pend.append((case, out_j, built))
+    if hasattr(Cls, 'from_json'):
+        out = load_outcome(lambda: Cls.from_json(x.to_json()))
+        check_rt(ctx, 'roundtrip:json', case, out, x, src, key)
+        out = load_outcome(lambda: Cls.from_list(json.loads(Cls.list_to_json([x, x]))))
+        if out[0] == 'ok':
+            ok = len(out[1]) == 2 and all(ref.same_typed(y, x) for y in out[1])
+            if not ok and key is None:
+                ctx.fail('roundtrip:list', case, f'from_list(list_to_json([x, x])) = {out[1]!r} != [x, x]', detail=src)
+        elif key is None:
+            ctx.fail('roundtrip:list', case, f'from_list(list_to_json([x, x])) raised {out[1]!r}', detail=src)
+    text_formats(ctx, case, x, Cls, built, src, key)
 
 
 def _known_key(x):
